@@ -819,6 +819,7 @@ func init() {
 			}
 			info := p.TypesInfo
 			var obs []Obligation
+			lits := map[string]*ast.FuncLit{}
 			for _, name := range []string{"AnalyzerBuiltinArity", "AnalyzerIfArity", "AnalyzerUserArity"} {
 				var lit *ast.FuncLit
 				for _, f := range p.Syntax {
@@ -879,6 +880,102 @@ func init() {
 					o.Verdict, o.Detail = Proved, "computes aritySkipNodes and returns early for an excluded node"
 				} else {
 					o.Verdict, o.Detail = Violated, name+" does not consult aritySkipNodes: a list that is syntax, not a call (e.g. the formals list of (lambda (if then else) ...)), is reported as a wrong-arity call"
+				}
+				obs = append(obs, o)
+				lits[name] = lit
+			}
+			// ... and they agree on WHICH operators' argument positions are special: the operator names
+			// (string constants) mentioned by the node-set builders an analyzer calls — functions of the
+			// package from the pass's expressions to a set of nodes — are the same for all three.  A builder
+			// that only some of them call (thread-first / thread-last children counted with one more
+			// argument by builtin-arity and user-arity, still judged as written by if-arity) makes the
+			// analyzers disagree with each other and one of them with the evaluator.
+			nodeSetBuilder := func(f *types.Func) bool {
+				if f == nil || f.Pkg() == nil || rel(f.Pkg().Path()) != "lint" {
+					return false
+				}
+				sig, ok := f.Type().(*types.Signature)
+				if !ok || sig.Recv() != nil || sig.Results().Len() != 1 {
+					return false
+				}
+				m, ok := sig.Results().At(0).Type().Underlying().(*types.Map)
+				if !ok || !isLValPtr(c, m.Key()) {
+					return false
+				}
+				bt, ok := m.Elem().Underlying().(*types.Basic)
+				return ok && bt.Kind() == types.Bool
+			}
+			var opsOf func(f *types.Func, depth int, seen map[*types.Func]bool) map[string]bool
+			opsOf = func(f *types.Func, depth int, seen map[*types.Func]bool) map[string]bool {
+				out := map[string]bool{}
+				fd := c.declOf[f]
+				if fd == nil || fd.Body == nil || seen[f] || depth > 3 {
+					return out
+				}
+				seen[f] = true
+				fi := c.pkgOf[fd].TypesInfo
+				ast.Inspect(fd.Body, func(n ast.Node) bool {
+					switch x := n.(type) {
+					case *ast.CaseClause:
+						for _, e := range x.List {
+							if sv, ok := constStringVal(fi, e); ok && sv != "" {
+								out[sv] = true
+							}
+						}
+					case *ast.BinaryExpr:
+						if x.Op == token.EQL || x.Op == token.NEQ {
+							for _, e := range []ast.Expr{x.X, x.Y} {
+								if sv, ok := constStringVal(fi, e); ok && sv != "" {
+									out[sv] = true
+								}
+							}
+						}
+					case *ast.CallExpr:
+						if h := originOf(Callee(fi, x)); h != nil && h.Pkg() == f.Pkg() && !h.Exported() {
+							for k := range opsOf(h, depth+1, seen) {
+								out[k] = true
+							}
+						}
+					}
+					return true
+				})
+				return out
+			}
+			cover := map[string]map[string]bool{}
+			for name, lit := range lits {
+				if lit == nil {
+					continue
+				}
+				cover[name] = map[string]bool{}
+				for _, ce := range callsIn(lit.Body, true) {
+					if f := originOf(Callee(info, ce)); nodeSetBuilder(f) {
+						for k := range opsOf(f, 0, map[*types.Func]bool{}) {
+							cover[name][k] = true
+						}
+					}
+				}
+			}
+			for _, name := range sortedKeys(cover) {
+				var missing []string
+				for _, other := range sortedKeys(cover) {
+					for op := range cover[other] {
+						if !cover[name][op] {
+							missing = append(missing, op+" (handled by "+other+")")
+						}
+					}
+				}
+				sort.Strings(missing)
+				o := Obligation{Rule: "ARITY.shared-skip-set", Func: "lint." + name, Construct: "operators with special argument positions", Nontrivial: true}
+				if lits[name] != nil {
+					o.Pos = c.Pos(lits[name].Pos())
+				}
+				if len(missing) == 0 {
+					o.Verdict, o.Detail = Proved, fmt.Sprintf("the node-set builders it calls mention the same %d operators as its siblings'", len(cover[name]))
+				} else {
+					if len(missing) > 6 {
+						missing = append(missing[:6], "…")
+					}
+					o.Verdict, o.Detail = Violated, name+" takes no account of operators whose argument positions its sibling analyzers treat specially: "+strings.Join(missing, ", ")+" — the analyzers judge the same form differently, so one of them disagrees with the evaluator (e.g. `(thread-first c (if a b))` runs as `(if c a b)`)"
 				}
 				obs = append(obs, o)
 			}
